@@ -123,6 +123,13 @@ func Stat(name string) (FileInfo, error) {
 
 func Lstat(name string) (FileInfo, error) { return Stat(name) }
 
+func Truncate(name string, size int64) error {
+	if rt.E != nil {
+		return rt.E.Truncate(name, size)
+	}
+	return os.Truncate(name, size)
+}
+
 func ReadFile(name string) ([]byte, error) {
 	if rt.E != nil {
 		return rt.E.ReadFile(name)
@@ -237,6 +244,27 @@ func (f *File) Stat() (FileInfo, error) {
 		return f.impl.Stat()
 	}
 	return f.real.Stat()
+}
+
+func (f *File) Truncate(size int64) error {
+	if f.impl != nil {
+		return f.impl.Truncate(size)
+	}
+	return f.real.Truncate(size)
+}
+
+func (f *File) Seek(offset int64, whence int) (int64, error) {
+	if f.impl != nil {
+		return f.impl.Seek(offset, whence)
+	}
+	return f.real.Seek(offset, whence)
+}
+
+func (f *File) WriteAt(b []byte, off int64) (int, error) {
+	if f.impl != nil {
+		return f.impl.WriteAt(b, off)
+	}
+	return f.real.WriteAt(b, off)
 }
 
 func (f *File) Sync() error {
